@@ -656,7 +656,24 @@ func vSnapshot(in *SwapStateMachine) *SwapStateMachine {
 
 type vRates struct {
 	peerSet, defSet bool
-	peerPpm, defPpm int64
+	// swap-out rates (peerPpm, defPpm) and swap-in rates differ: a charge computed with the rate of the
+	// other direction must show
+	peerPpm, defPpm     int64
+	peerPpmIn, defPpmIn int64
+}
+
+func (r vRates) peer(op premium.OperationType) int64 {
+	if op == premium.SwapIn {
+		return r.peerPpmIn
+	}
+	return r.peerPpm
+}
+
+func (r vRates) def(op premium.OperationType) int64 {
+	if op == premium.SwapIn {
+		return r.defPpmIn
+	}
+	return r.defPpm
 }
 
 var vCurWorld *vWorld
@@ -687,19 +704,20 @@ func vPremiumGetRate(p *premium.BBoltPremiumStore, peer string, asset premium.As
 		if !r.defSet {
 			return nil, premium.ErrRateNotFound
 		}
-		return premium.NewPremiumRate(asset, operation, premium.NewPPM(r.defPpm))
+		return premium.NewPremiumRate(asset, operation, premium.NewPPM(r.def(operation)))
 	}
 	if !r.peerSet {
 		return nil, premium.ErrRateNotFound
 	}
-	return premium.NewPremiumRate(asset, operation, premium.NewPPM(r.peerPpm))
+	return premium.NewPremiumRate(asset, operation, premium.NewPPM(r.peer(operation)))
 }
 
 // vPremiumSetting: the same rates for every (asset, operation) of the one peer of a harness run;
 // store I/O errors are outside (bbolt is trusted, C27 states it).
 func vPremiumSetting(w *vWorld, peer string) *premium.Setting {
 	w.rates = vRates{peerSet: zzverif.Bool("rate.peer.set"), peerPpm: zzverif.I64("rate.peer.ppm"),
-		defSet: zzverif.Bool("rate.default.set"), defPpm: zzverif.I64("rate.default.ppm")}
+		defSet: zzverif.Bool("rate.default.set"), defPpm: zzverif.I64("rate.default.ppm"),
+		peerPpmIn: zzverif.I64("rate.peer.ppm.in"), defPpmIn: zzverif.I64("rate.default.ppm.in")}
 	vCurWorld = w
 	if zzverif.Symbolic() {
 		zzverif.Override("(*github.com/elementsproject/peerswap/premium.BBoltPremiumStore).GetRate", vPremiumGetRate)
@@ -725,11 +743,11 @@ func vPremiumSetting(w *vWorld, peer string) *premium.Setting {
 	for _, a := range []premium.AssetType{premium.BTC, premium.LBTC} {
 		for _, o := range []premium.OperationType{premium.SwapIn, premium.SwapOut} {
 			if w.rates.peerSet {
-				r, _ := premium.NewPremiumRate(a, o, premium.NewPPM(w.rates.peerPpm))
+				r, _ := premium.NewPremiumRate(a, o, premium.NewPPM(w.rates.peer(o)))
 				ps.SetRate(context.Background(), peer, r)
 			}
 			if w.rates.defSet {
-				r, _ := premium.NewPremiumRate(a, o, premium.NewPPM(w.rates.defPpm))
+				r, _ := premium.NewPremiumRate(a, o, premium.NewPPM(w.rates.def(o)))
 				ps.SetDefaultRate(context.Background(), r)
 			}
 		}
